@@ -148,11 +148,11 @@ def run(ctx):
         c = h.get('case') or {}
         if 'scenario' in c:
             jobs.append(('explore', ('hint', c['scenario'], 2000, rng.randrange(1 << 30)), ctx.model.available))
-    n_small = 60 if not deep else 400      # random small scenarios, all interleavings (capped)
+    n_small = 60 if not deep else 300      # random small scenarios, all interleavings (capped)
     for i in range(n_small):
         scn = small_random(rng)
         jobs.append(('explore', (f'small{i}', scn, 400 if not deep else 3000, rng.randrange(1 << 30)), ctx.model.available))
-    n_rand = 1400 if not deep else 24000   # random scenarios x random schedules
+    n_rand = 1400 if not deep else 15000   # random scenarios x random schedules
     per = 8 if not deep else 12
     batch = []
     for i in range(n_rand):
